@@ -432,11 +432,20 @@ def _hier(draw):
 @st.composite
 def _case(draw):
     hiers = draw(st.lists(_hier(), min_size=1, max_size=2))
+    if len(hiers) == 1 and draw(st.booleans()):
+        # a second hierarchy with the SAME shape and schema but other keys and its own anchor
+        twin = dict(hiers[0])
+        twin['keys'] = [KEYPOOL[(KEYPOOL.index(k) + 1) % len(KEYPOOL)] if k in KEYPOOL else k for k in twin['keys']]
+        hiers.append(twin)
     nv = draw(st.integers(1, 3))
     validators = [{'hier': draw(st.integers(0, 1)),
                    'bad_anchor': draw(st.sampled_from([None, None, None, None, None, 'not-self-signed', 'not-root']))}
                   for _ in range(nv)]
     order = draw(st.lists(st.tuples(st.integers(0, 2), st.integers(0, 7)).map(list), min_size=1, max_size=6))
+    if draw(st.booleans()):
+        # the same packet validated by two different instances one after the other
+        p = draw(st.integers(0, 7))
+        order = order[:4] + [[0, p], [1, p]]
     return {'hiers': hiers, 'validators': validators, 'order': order}
 
 
